@@ -1040,7 +1040,15 @@ void Handler::readArgumentFile( const string& pathFilename, bool reportMissing)
       return;
    } // end if
 
+   // an argument file that, directly or through other files, names itself
+   // would be read again and again until the stack is exhausted
+   if (mArgFileNesting >= 20)
+      throw runtime_error( "argument files nested too deeply when reading file '"
+         + pathFilename + "'");
+
    const common::ScopedFlag< uint8_t>  sf( mReadMode, ReadMode::file);
+   const common::ScopedValue< int>     nesting( mArgFileNesting,
+      mArgFileNesting + 1);
 
    // now read the lines with arguments and process them
    string  line;
